@@ -163,29 +163,38 @@ def explore(rng, fn, D, full_cap=0, max_execs=None):
     info = {"executions": 0, "exhaustive": False, "max_points": 0, "bound": D, "capped": False}
 
     def dfs(bound, cap):
-        stack = [((), 0)]
+        # stack entries are (parent trace, position, alternative, deviations): the prefix is only
+        # materialised when the entry is popped, so pushing alternatives costs O(1) each
+        stack = [(None, 0, 0, 0)]
         n = 0
         while stack:
-            prefix, dev = stack.pop()
+            ptr, pos, alt, dev = stack.pop()
+            prefix = () if ptr is None else tuple(ptr[:pos]) + ((alt, ptr[pos][1]),)
             out = run_once(rng, fn, prefix)
             tr = list(rng.trace)
             sites = list(rng.sites)
             n += 1
             yield tr, sites, out
-            if cap and n > cap:
-                return
             info["max_points"] = max(info["max_points"], len(tr))
             if bound is not None and dev + 1 > bound:
                 continue
             for i in range(len(tr) - 1, len(prefix) - 1, -1):
-                for alt in range(tr[i][1] - 1, 0, -1):
-                    stack.append((tuple(tr[:i]) + ((alt, tr[i][1]),), dev + 1))
+                for a in range(tr[i][1] - 1, 0, -1):
+                    stack.append((tr, i, a, dev + 1))
+            # every stack entry is a distinct future execution: the tree has >= n + len(stack) leaves
+            if cap and n + len(stack) > cap:
+                yield None
+                return
 
     if full_cap:
         buf = []
+        too_big = False
         for item in dfs(None, full_cap):
+            if item is None:
+                too_big = True
+                break
             buf.append(item)
-        if len(buf) <= full_cap:
+        if not too_big:
             info["exhaustive"] = True
             info["executions"] = len(buf)
             info["bound"] = None
